@@ -282,22 +282,23 @@ fn build_cherry_pick_commit_mappings(
 //#end
 
 // ================================================================ the source commits of `git cherry-pick <args>`
-/// git-cherry-pick(1) / parse-options: an argument starting with '-' is an option
-pub open spec fn is_option(a: Seq<char>) -> bool { a.len() > 0 && a[0] == '-' }
+pub open spec fn starts_dash(a: Seq<char>) -> bool { a.len() > 0 && a[0] == '-' }
+/// git-cherry-pick(1) / parse-options: an argument starting with '-' is an option - except the lone "-", which is a REVISION
+/// (the previous branch, shorthand for "@{-1}")
+pub open spec fn is_option(a: Seq<char>) -> bool { starts_dash(a) && a != "-"@ }
+/// the revision an argument that is not an option names
+pub open spec fn rev_of(a: Seq<char>) -> Seq<char> { if a == "-"@ { "@{-1}"@ } else { a } }
 /// git-cherry-pick(1): the options whose value may be given as a SEPARATE argument
 pub open spec fn takes_value(a: Seq<char>) -> bool {
     a == "-m"@ || a == "--mainline"@ || a == "--strategy"@ || a == "-X"@ || a == "--strategy-option"@ || a == "--cleanup"@
 }
-/// arguments on which the code is known to DISAGREE with git's command line (see REPORT.md, findings F2-F3): excluded by the
-/// precondition of parse_cherry_pick_commits; the replay driver reports them as named oracle clauses.
-/// ("-s" = --signoff was one of them - finding F1, repaired in /repo 3c53d708 - and is now COVERED: it is an option without
-/// value, so by parse_from it contributes nothing and does NOT consume the next argument.)
-///   "-X" / "--strategy-option" / "--cleanup" (take a separate value: the code reads the value as a revision),
-///   "-" (the previous branch, a revision: the code drops it as an option),
-///   the bare words continue / abort / quit / skip (revisions for git: the code drops them)
+/// arguments on which the code is known to DISAGREE with git's command line (see REPORT.md, finding F2): excluded by the
+/// precondition of parse_cherry_pick_commits; the replay driver reports them as a named oracle clause.
+///   "-X" / "--strategy-option" / "--cleanup" (take a separate value: the code reads the value as a revision)
+/// (Repaired and now COVERED: "-s" = --signoff takes no value - F1, /repo 3c53d708; the lone "-" is the previous branch and the
+/// bare words continue / abort / quit / skip are ordinary revisions - F3, /repo 3dcb2201.)
 pub open spec fn disputed(a: Seq<char>) -> bool {
-    a == "-X"@ || a == "--strategy-option"@ || a == "--cleanup"@ || a == "-"@
-        || a == "continue"@ || a == "abort"@ || a == "quit"@ || a == "skip"@
+    a == "-X"@ || a == "--strategy-option"@ || a == "--cleanup"@
 }
 pub open spec fn has_dotdot(a: Seq<char>) -> bool { exists|k: int| 0 <= k && k + 1 < a.len() && a[k] == '.' && #[trigger] a[k + 1] == '.' }
 /// `git rev-list --reverse <range>`: the commits of the range in APPLICATION order (oldest first), None when git fails
@@ -320,7 +321,7 @@ pub open spec fn parse_from(args: Seq<Seq<char>>, i: int) -> Seq<Seq<char>>
 {
     if i < 0 || i >= args.len() { Seq::empty() }
     else if is_option(args[i]) { if takes_value(args[i]) { if i + 2 <= args.len() { parse_from(args, i + 2) } else { Seq::empty() } } else { parse_from(args, i + 1) } }
-    else { rev_commits(args[i]) + parse_from(args, i + 1) }
+    else { rev_commits(rev_of(args[i])) + parse_from(args, i + 1) }
 }
 pub open spec fn no_disputed(args: Seq<Seq<char>>) -> bool { forall|k: int| 0 <= k < args.len() ==> !disputed(#[trigger] args[k]) }
 
@@ -349,10 +350,29 @@ pub proof fn theorem_signoff_does_not_consume_next(rest: Seq<Seq<char>>)
     ensures parse_from(seq!["-s"@] + rest, 0) == parse_from(rest, 0),
 {
     reveal_strlit("-s"); reveal_strlit("-m"); reveal_strlit("--mainline"); reveal_strlit("--strategy"); reveal_strlit("-X"); reveal_strlit("--strategy-option"); reveal_strlit("--cleanup");
+    reveal_strlit("-"); assert("-"@.len() == 1 && "-s"@.len() == 2);
     assert(is_option("-s"@));
     assert("-s"@.len() == 2 && "-m"@.len() == 2 && "-X"@.len() == 2 && "-s"@[1] == 's' && "-m"@[1] == 'm' && "-X"@[1] == 'X');
     assert(!takes_value("-s"@));
     theorem_option_contributes_nothing("-s"@, rest);
+}
+/// THEOREM (finding F3, repaired): the lone `-` is the previous branch: it contributes what the revision "@{-1}" names
+pub proof fn theorem_dash_is_previous_branch(rest: Seq<Seq<char>>)
+    ensures parse_from(seq!["-"@] + rest, 0) == rev_commits("@{-1}"@) + parse_from(rest, 0),
+{
+    assert((seq!["-"@] + rest)[0] == "-"@);
+    lemma_parse_shift("-"@, rest, 0);
+}
+/// THEOREM (finding F3, repaired): the bare words continue / abort / quit / skip are revisions like any other
+pub proof fn theorem_sequencer_words_are_revisions(w: Seq<char>, rest: Seq<Seq<char>>)
+    requires w == "continue"@ || w == "abort"@ || w == "quit"@ || w == "skip"@,
+    ensures parse_from(seq![w] + rest, 0) == rev_commits(w) + parse_from(rest, 0),
+{
+    reveal_strlit("continue"); reveal_strlit("abort"); reveal_strlit("quit"); reveal_strlit("skip"); reveal_strlit("-");
+    assert(w[0] != '-' && w.len() > 1);
+    assert(!is_option(w) && rev_of(w) == w);
+    assert((seq![w] + rest)[0] == w);
+    lemma_parse_shift(w, rest, 0);
 }
 /// THEOREM: neither a value-taking option nor its separate value is read as a revision
 pub proof fn theorem_option_value_contributes_nothing(opt: Seq<char>, value: Seq<char>, rest: Seq<Seq<char>>)
@@ -368,7 +388,7 @@ pub proof fn theorem_option_value_contributes_nothing(opt: Seq<char>, value: Seq
 /// (or its one commit), followed by what the remaining arguments contribute
 pub proof fn theorem_revision_then_rest(a: Seq<char>, rest: Seq<Seq<char>>)
     requires !is_option(a),
-    ensures parse_from(seq![a] + rest, 0) == rev_commits(a) + parse_from(rest, 0),
+    ensures parse_from(seq![a] + rest, 0) == rev_commits(rev_of(a)) + parse_from(rest, 0),
         has_dotdot(a) && range_commits(a) is Some ==> rev_commits(a) == git_rev_list(REVERSE_OPTS(), a),
         !has_dotdot(a) && resolve_one(a) is Some ==> rev_commits(a).len() == 1,
 {
@@ -378,13 +398,18 @@ pub proof fn theorem_revision_then_rest(a: Seq<char>, rest: Seq<Seq<char>>)
 
 /// `arg.starts_with('-')`
 #[verifier::external_body]
-fn opq_is_option(a: &String) -> (r: bool)
-    ensures r == is_option(a@),
+fn opq_starts_dash(a: &String) -> (r: bool)
+    ensures r == starts_dash(a@),
 { unimplemented!() }
 /// `String == &str`
 #[verifier::external_body]
 fn opq_eq(a: &String, b: &str) -> (r: bool)
     ensures r == (a@ == b@),
+{ unimplemented!() }
+/// `String != &str`
+#[verifier::external_body]
+fn opq_ne(a: &String, b: &str) -> (r: bool)
+    ensures r == (a@ != b@),
 { unimplemented!() }
 /// `s.contains("..")`
 #[verifier::external_body]
@@ -452,7 +477,7 @@ pub open spec fn parse_inv(args: Seq<Seq<char>>, i: int, commits: Seq<String>) -
     views(commits) + parse_from(args, i) == parse_from(args, 0)
 }
 
-//#item file=src/commands/hooks/cherry_pick_hooks.rs kind=fn name=parse_cherry_pick_commits opaque='[{"expr": "arg.starts_with(\u0027-\u0027)", "call": "opq_is_option(arg)"}, {"expr": "arg == \"-m\"", "call": "opq_eq(arg, \"-m\")"}, {"expr": "arg == \"--mainline\"", "call": "opq_eq(arg, \"--mainline\")"}, {"expr": "arg == \"--strategy\"", "call": "opq_eq(arg, \"--strategy\")"}, {"expr": "arg == \"continue\"", "call": "opq_eq(arg, \"continue\")"}, {"expr": "arg == \"abort\"", "call": "opq_eq(arg, \"abort\")"}, {"expr": "arg == \"quit\"", "call": "opq_eq(arg, \"quit\")"}, {"expr": "arg == \"skip\"", "call": "opq_eq(arg, \"skip\")"}, {"expr": "commit_ref.contains(\"..\")", "call": "opq_has_dotdot(&commit_ref)"}, {"expr": "commits.extend(expanded)", "call": "opq_extend(&mut commits, expanded)"}]'
+//#item file=src/commands/hooks/cherry_pick_hooks.rs kind=fn name=parse_cherry_pick_commits opaque='[{"expr": "arg.starts_with(\u0027-\u0027)", "call": "opq_starts_dash(arg)"}, {"expr": "arg != \"-\"", "call": "opq_ne(arg, \"-\")"}, {"expr": "arg == \"-m\"", "call": "opq_eq(arg, \"-m\")"}, {"expr": "arg == \"--mainline\"", "call": "opq_eq(arg, \"--mainline\")"}, {"expr": "arg == \"--strategy\"", "call": "opq_eq(arg, \"--strategy\")"}, {"expr": "arg == \"-\"", "call": "opq_eq(arg, \"-\")"}, {"expr": "commit_ref.contains(\"..\")", "call": "opq_has_dotdot(&commit_ref)"}, {"expr": "commits.extend(expanded)", "call": "opq_extend(&mut commits, expanded)"}]'
 fn parse_cherry_pick_commits(repository: &Repository, args: &[String]) -> (r_: Vec<String>)
 //@     requires
 //@         args@.len() < usize::MAX,
@@ -473,8 +498,8 @@ fn parse_cherry_pick_commits(repository: &Repository, args: &[String]) -> (r_: V
         let arg = &args[i];
         //@ proof { assert(views(args@)[i as int] == arg@); assert(!disputed(views(args@)[i as int])); }
 
-        // Skip flags and their values
-        if opq_is_option(arg) {
+        // Skip flags and their values (a lone `-` is not a flag: it names the previous branch)
+        if opq_starts_dash(arg) && opq_ne(arg, "-") {
             // Skip option values for flags that take arguments
             // (`-s` is --signoff for cherry-pick and takes no value)
             if opq_eq(arg, "-m") || opq_eq(arg, "--mainline") || opq_eq(arg, "--strategy") {
@@ -485,15 +510,14 @@ fn parse_cherry_pick_commits(repository: &Repository, args: &[String]) -> (r_: V
             continue;
         }
 
-        // Skip special keywords
-        if opq_eq(arg, "continue") || opq_eq(arg, "abort") || opq_eq(arg, "quit") || opq_eq(arg, "skip") {
-            i += 1;
-            continue;
-        }
-
-        // This is a commit reference
-        let commit_ref = arg.clone();
+        // This is a commit reference (`continue`, `abort`, `quit` and `skip` without dashes are
+        // ordinary revision names for git; `-` is shorthand for `@{-1}`)
         //@ let ghost old_commits = commits@;
+        let commit_ref = if opq_eq(arg, "-") {
+            "@{-1}".to_string()
+        } else {
+            arg.clone()
+        };
 
         // Check if it's a range (contains ..)
         if opq_has_dotdot(&commit_ref) {
@@ -509,7 +533,7 @@ fn parse_cherry_pick_commits(repository: &Repository, args: &[String]) -> (r_: V
                 commits.push(resolved);
             }
         }
-        //@ proof { assert(views(commits@) + parse_from(views(args@), i as int + 1) =~= views(old_commits) + (rev_commits(arg@) + parse_from(views(args@), i as int + 1))); }
+        //@ proof { assert(views(commits@) + parse_from(views(args@), i as int + 1) =~= views(old_commits) + (rev_commits(rev_of(arg@)) + parse_from(views(args@), i as int + 1))); }
 
         i += 1;
     }
